@@ -46,7 +46,7 @@ func registerRead(ctx *Context, forward Forward, reg RegisterType, sequenceID in
 		return v
 	}
 
-	if v, exists := ctx.Transaction[reg]; exists {
+	if v, exists := ctx.Transaction[reg]; exists && (sequenceID == 0 || v.sequenceID <= sequenceID) {
 		return v.value
 	}
 	return ctx.Registers[reg]
